@@ -36,6 +36,8 @@ type ty struct {
 	fnArgs []*ty
 	fnRes  *ty
 	fnMut  bool // func([]T, …) without results: may write the slice it is handed, may panic
+	arrN    int  // > 0: a fixed-size array [arrN]T (a list of exactly that length, value semantics)
+	capPair bool // a capacity-tracked local slice (capLocal): the Lean variable is (visible part, rest of the array)
 }
 
 type structInfo struct {
@@ -54,6 +56,9 @@ func (t *ty) lean() string {
 	case kBool:
 		return "Bool"
 	case kList:
+		if t.capPair {
+			return "(List (" + t.elem.lean() + ") × List (" + t.elem.lean() + "))"
+		}
 		return "List (" + t.elem.lean() + ")"
 	case kUnit:
 		return "Unit"
@@ -98,6 +103,10 @@ func (t *ty) zero() (string, bool) {
 	case kBool:
 		return "false", true
 	case kList:
+		if t.arrN > 0 {
+			z, ok := t.elem.zero()
+			return fmt.Sprintf("(List.replicate %d %s : %s)", t.arrN, z, t.lean()), ok
+		}
 		return "([] : " + t.lean() + ")", true
 	case kUnit:
 		return "()", true
@@ -136,6 +145,9 @@ func (t *ty) code() string {
 	case kUnit:
 		return "unit"
 	case kList:
+		if t.arrN > 0 {
+			return "" // no protocol form for a fixed-size array
+		}
 		if t.str {
 			return "str"
 		}
@@ -263,7 +275,7 @@ func (t *fn) goType(gt types.Type) (*ty, error) {
 	case *types.Interface:
 		return nil, fmt.Errorf("interface type %s is outside the subset", u)
 	case *types.Array:
-		return nil, fmt.Errorf("array type %s is outside the subset", u)
+		return t.arrayType(u)
 	case *types.Struct:
 		return nil, fmt.Errorf("anonymous struct type is outside the subset")
 	}
@@ -314,6 +326,14 @@ func (t *fn) structType(n *types.Named) (*ty, error) {
 			return nil, fmt.Errorf("struct %s has an embedded field: outside the subset", name)
 		}
 		ft, err := t.goType(f.Type())
+		if fsig, isFn := f.Type().Underlying().(*types.Signature); isFn {
+			// wave 9: a callback FIELD `cmp func(T, T) bool` — the same assumption as for a callback
+			// parameter (pure and total); a mutating callback field stays outside the subset
+			ft, err = t.funcParamTy(fsig)
+			if err == nil && ft.fnMut {
+				err = fmt.Errorf("callback field without results is outside the subset")
+			}
+		}
 		if err != nil {
 			delete(t.g.structs, name)
 			return nil, fmt.Errorf("field %s.%s: %v", name, f.Name(), err)
